@@ -451,4 +451,171 @@ theorem literal_hex_window_closed :
       litSpec (maxValue (P.charBit * P.sizeofInt)) (maxValue (P.charBit * P.sizeofLong))
         (maxValue (P.charBit * P.sizeofLongLong)) .hex false 0 4294967296 = some .long := by decide
 
+/-! ## nested expressions: the type of a tree (structural induction)
+
+`typeOf` folds the per-node rules of the code over an expression tree (variables and integer literals at the leaves),
+`specOf` folds the language rules, `ok` says that every node is well-typed and outside K1..K6 (judged by the LANGUAGE
+types of its operands).  The node lemmas restate the per-operator theorems in that vocabulary; the tree theorem is the
+induction.  That the real code is compositional like `typeOf` is tied by the nested-expression correspondence. -/
+
+theorem node_bin (s : Shape) (hs : s.consistent = true) (cpp : Bool) (op : BinOp) (t1 t2 : CT)
+    (h : binClass s cpp op t1 t2 = .fine) :
+    convBin .base s cpp op (declVT t1) (declVT t2) = some (asVT (specBin s cpp op t1 t2)) := by
+  unfold binClass at h
+  by_cases hwt : wellTypedBin op t1 t2 = true
+  · simp only [hwt, Bool.not_true, Bool.false_eq_true, if_false] at h
+    cases hc : op.cls <;> rw [hc] at h
+    · -- arith
+      simp only [uacClass] at h
+      by_cases hk2 : (promotesToUnsigned s t1 || promotesToUnsigned s t2) = true
+      · simp [hk2] at h
+      · by_cases hk1 : sameSizeDifferentRankMixedSign s t1 t2 = true
+        · simp [hk2, hk1] at h
+        · simp only [Bool.or_eq_true, not_or, Bool.not_eq_true] at hk2
+          exact conv_eq_spec_partial s hs cpp op t1 t2 (Or.inl hc) hwt (by simpa using hk1) hk2.1 hk2.2
+    · -- bit
+      simp only [uacClass] at h
+      by_cases hk2 : (promotesToUnsigned s t1 || promotesToUnsigned s t2) = true
+      · simp [hk2] at h
+      · by_cases hk1 : sameSizeDifferentRankMixedSign s t1 t2 = true
+        · simp [hk2, hk1] at h
+        · simp only [Bool.or_eq_true, not_or, Bool.not_eq_true] at hk2
+          exact conv_eq_spec_partial s hs cpp op t1 t2 (Or.inr hc) hwt (by simpa using hk1) hk2.1 hk2.2
+    · -- shift
+      by_cases hk2 : promotesToUnsigned s t1 = true
+      · simp [hk2] at h
+      · exact (shift_takes_left_type s hs cpp op hc t1 t2 hwt).2 (by simpa using hk2)
+    · -- cmp
+      cases cpp
+      · simp at h
+      · exact ((comparison_yields_int_or_bool .base s true op (by simp [boolValued, hc]) t1 t2).2).mpr rfl
+    · -- logical
+      cases cpp
+      · simp at h
+      · exact ((comparison_yields_int_or_bool .base s true op (by simp [boolValued, hc]) t1 t2).2).mpr rfl
+    · exact assignment_keeps_left_type .base s cpp op hc t1 t2
+  · simp [hwt] at h
+
+theorem node_un (s : Shape) (hs : s.consistent = true) (cpp : Bool) (op : UnOp) (t : CT)
+    (h : unClass s cpp op t = .fine) :
+    convUn .base s op (declVT t) = some (asVT (specUn s cpp op t)) := by
+  unfold unClass at h
+  by_cases hwt : wellTypedUn op t = true
+  · simp only [hwt, Bool.not_true, Bool.false_eq_true, if_false] at h
+    cases op
+    · by_cases hk2 : promotesToUnsigned s t = true
+      · simp [hk2] at h
+      · exact (promotion_below_int s hs cpp .neg (Or.inl rfl) t hwt).2 (by simpa using hk2)
+    · by_cases hk2 : promotesToUnsigned s t = true
+      · simp [hk2] at h
+      · exact (promotion_below_int s hs cpp .bnot (Or.inr rfl) t hwt).2 (by simpa using hk2)
+    · cases cpp
+      · simp at h
+      · exact ((lnot_yields_int_or_bool .base s true t).2).mpr rfl
+    all_goals
+      by_cases hb : belowInt t = true
+      · simp [hb] at h
+      · exact (incdec_partial .base (Or.inl rfl) s hs cpp _ rfl t hwt).1 (by simpa using hb)
+  · simp [hwt] at h
+
+theorem node_tern (s : Shape) (hs : s.consistent = true) (cpp : Bool) (t1 t2 : CT)
+    (h : ternClass s cpp t1 t2 = .fine) :
+    convTernary .base s cpp (declVT t1) (declVT t2) = some (asVT (specTernary s cpp t1 t2)) := by
+  unfold ternClass at h
+  by_cases hsv : sameVType t1 t2 = true
+  · simp only [hsv, if_true] at h
+    by_cases hc : (t1 == t2 && (cpp || !belowInt t1)) = true
+    · simp only [Bool.and_eq_true, beq_iff_eq, Bool.or_eq_true, Bool.not_eq_true'] at hc
+      exact (ternary_partial_same .base (Or.inl rfl) s hs cpp t1 t2 hsv).2 hc.1 hc.2
+    · simp only [hc, Bool.false_eq_true, if_false] at h
+      by_cases hb : (!cpp && t1 == CT.bool && t2 == CT.bool) = true
+      · simp [hb] at h
+      · simp [hb] at h
+  · have hsv' : sameVType t1 t2 = false := by simpa using hsv
+    simp only [hsv', Bool.false_eq_true, if_false, uacClass] at h
+    by_cases hk2 : (promotesToUnsigned s t1 || promotesToUnsigned s t2) = true
+    · simp [hk2] at h
+    · by_cases hk1 : sameSizeDifferentRankMixedSign s t1 t2 = true
+      · simp [hk2, hk1] at h
+      · simp only [Bool.or_eq_true, not_or, Bool.not_eq_true] at hk2
+        exact ternary_partial_different s hs cpp t1 t2 hsv' (by simpa using hk1) hk2.1 hk2.2
+
+theorem node_lit (P : Plat) (hP : sane P = true) (base : Base) (us : Bool) (longs value : Nat)
+    (h : litClass P base us longs value = .fine) :
+    litType P false (base != .hex) us longs value
+      = asVT ((litSpec (imaxOf P) (lmaxOf P) (llmaxOf P) base us longs value).getD .int) := by
+  unfold litClass at h
+  by_cases h1 : (decide (longs > 2) || (litSpec (imaxOf P) (lmaxOf P) (llmaxOf P) base us longs value).isNone) = true
+  · simp [h1] at h
+  · simp only [h1, Bool.false_eq_true, if_false] at h
+    by_cases h6 : octalAsDecimal (imaxOf P) (lmaxOf P) base us longs value = true
+    · simp [h6] at h
+    · simp only [Bool.or_eq_true, decide_eq_true_eq, not_or, Option.isNone_iff_eq_none] at h1
+      obtain ⟨hl, hsome⟩ := h1
+      obtain ⟨t, ht⟩ := Option.ne_none_iff_exists'.mp hsome
+      have hfit := litSpec_some_fits (imaxOf P) (lmaxOf P) (llmaxOf P) value longs base us t
+        (imax_le_lmax_of_sane P hP) (lmax_le_llmax_of_sane P hP) (by omega) ht
+      have key := literal_type_partial (imaxOf P) (lmaxOf P) (llmaxOf P) value longs base us
+        (imax_le_lmax_of_sane P hP) (by omega) (by simpa using h6) hfit.1 hfit.2
+      rw [ht] at key ⊢
+      simp only [Option.map_some, Option.some.injEq] at key
+      simp only [Option.getD_some, litType, Bool.false_eq_true, if_false]
+      exact key.symm
+
+/-- THE TREE THEOREM (code as pinned).  For every platform with ordered sizes, both languages and every expression tree over
+    variables of the 15 arithmetic types and integer literals: if every node is well-typed and outside K1..K6 (`ok`), the
+    type the code attaches to the root is the type the language gives the whole expression. -/
+theorem typeOf_eq_spec_partial (P : Plat) (hP : sane P = true) (cpp : Bool) (e : Expr) (h : ok P cpp e = true) :
+    typeOf .base P cpp e = some (asVT (specOf P cpp e)) := by
+  have hs := shape_consistent_of_sane P hP
+  induction e with
+  | var t => rfl
+  | lit base us longs value =>
+    simp only [ok, beq_iff_eq] at h
+    simp only [typeOf, specOf]
+    rw [node_lit P hP base us longs value h]
+  | un op e ih =>
+    simp only [ok, Bool.and_eq_true, beq_iff_eq] at h
+    have hr := h.1
+    simp only [rootClass] at hr
+    by_cases hv : (op.isIncDec && !e.isVar) = true
+    · simp [hv] at hr
+    · simp only [hv, Bool.false_eq_true, if_false] at hr
+      simp only [typeOf, ih h.2, specOf]
+      exact node_un P.shape hs cpp op _ hr
+  | bin op a b iha ihb =>
+    simp only [ok, Bool.and_eq_true, beq_iff_eq] at h
+    have hr := h.1.1
+    simp only [rootClass] at hr
+    by_cases hv : (op.cls == OpClass.assign && !a.isVar) = true
+    · simp [hv] at hr
+    · simp only [hv, Bool.false_eq_true, if_false] at hr
+      simp only [typeOf, iha h.1.2, ihb h.2, specOf]
+      exact node_bin P.shape hs cpp op _ _ hr
+  | tern c a b _ iha ihb =>
+    simp only [ok, Bool.and_eq_true, beq_iff_eq] at h
+    have hr := h.1.1.1
+    simp only [rootClass] at hr
+    simp only [typeOf, iha h.1.2, ihb h.2, specOf]
+    exact node_tern P.shape hs cpp _ _ hr
+  | cast t e _ => rfl
+
+/-- for the platforms of the generated table -/
+theorem typeOf_eq_spec_partial_table (P : Plat) (hP : P ∈ platforms) (cpp : Bool) (e : Expr) (h : ok P cpp e = true) :
+    typeOf .base P cpp e = some (asVT (specOf P cpp e)) :=
+  typeOf_eq_spec_partial P (platforms_sane P hP) cpp e h
+
+-- `ok` is satisfiable by nested trees with all node kinds: `(unsigned char)(c ? (a * 2u) << b : -d) + 0x7fL` on unix64, C++
+example : ∃ P ∈ platforms, P.name = "unix64" ∧
+    ok P true (.bin .add (.cast .uchar (.tern (.bin .lt (.var .int) (.var .long))
+        (.bin .shl (.bin .mul (.var .short) (.lit .dec true 0 2)) (.var .schar)) (.un .neg (.var .uint))))
+      (.lit .hex false 1 127)) = true := by decide
+
+/-- the full-strength tree statement is false of the code as pinned: a K1 node below the root (`(u + l) * 2` on win64) -/
+theorem typeOf_counterexample :
+    ∃ P ∈ platforms, P.name = "win64" ∧
+      typeOf .base P false (.bin .mul (.bin .add (.var .uint) (.var .long)) (.lit .dec false 0 2)) = some ⟨.long, .signed⟩ ∧
+      asVT (specOf P false (.bin .mul (.bin .add (.var .uint) (.var .long)) (.lit .dec false 0 2))) = ⟨.long, .unsigned⟩ ∧
+      firstClass P false (.bin .mul (.bin .add (.var .uint) (.var .long)) (.lit .dec false 0 2)) = .k1 := by decide
+
 end Cppcheck.C09
